@@ -46,7 +46,7 @@ def run_acl(ctx, model, impl, thorough):
     cases = _acl_corpus() + _acl_requests(rng, 4000 if thorough else 450, stats)
     n_random = len(cases)
     # exhaustive toy family: every ACL of <= k entries over 10.0.0.0/(32-b) x every address of it
-    b, k = (4, 3) if thorough else (3, 2)
+    b, k = (4, 3) if thorough else (3, 3)
     toy = aclgen.toy_entries(b)
     toy_addrs = [(4, (10 << 24) | i) for i in range(1 << b)]
     import itertools
@@ -168,7 +168,7 @@ def run_cells(ctx, model, impl, thorough):
         cells = list(evalgen.assign_cells_exhaustive()) + list(evalgen.oper_cells_exhaustive())
         cells += evalgen.sample_cells(rng, 150000, 150000)
     else:
-        cells = evalgen.sample_cells(rng, 45000, 45000)
+        cells = evalgen.sample_cells(rng, 70000, 70000)
     # corpus first: the minimised inputs of the repaired defects
     corpus = [evalgen.Cell(*c) for c in CELL_CORPUS]
     cells = corpus + cells
@@ -240,7 +240,7 @@ def run_cells(ctx, model, impl, thorough):
                         c.describe(), ir.split()[1], want), {"cell": c.impl(), "impl": ir, "documented_ns": want},
                         {"cell": "RTIME=FLOAT"})
     ctx.coverage["cells"] = {
-        "cells": n, "exhaustive_boundary_grid": bool(thorough), "agree_with_model": agree, "interpreter_outcomes": status,
+        "cells": n, "dual_and_negated_cells": len(extra), "exhaustive_boundary_grid": bool(thorough), "agree_with_model": agree, "interpreter_outcomes": status,
         "dual_pairs_checked": dual_ok, "negation_pairs_checked": neg_ok, "integer_results_checked_against_python": arith_ok,
         "rtime_float_known_hits": known_rtime,
         "operator_x_typepair_classes": len(per_key),
